@@ -112,7 +112,15 @@ class EEMSWrite(SameArrayShapeMixin, Command):
                 for dimension in dimensions:
                     in_dimension_variable = dim_dataset[dimension]
                     dataset.createDimension(dimension, in_dimension_variable.size)
-                    out_dimension_variable = dataset.createVariable(dimension, in_dimension_variable.dtype, [dimension])
+                    # _FillValue can only be given when a variable is created (setncattr refuses it afterwards)
+                    fill_value = (
+                        in_dimension_variable.getncattr("_FillValue")
+                        if "_FillValue" in in_dimension_variable.ncattrs()
+                        else None
+                    )
+                    out_dimension_variable = dataset.createVariable(
+                        dimension, in_dimension_variable.dtype, [dimension], fill_value=fill_value
+                    )
 
                     for attribute in dir(in_dimension_variable):
                         if attribute not in dir(out_dimension_variable) and attribute not in (
@@ -122,7 +130,8 @@ class EEMSWrite(SameArrayShapeMixin, Command):
                             setattr(out_dimension_variable, attribute, getattr(in_dimension_variable, attribute))
 
                     for ncattr in in_dimension_variable.ncattrs():
-                        out_dimension_variable.setncattr(ncattr, in_dimension_variable.getncattr(ncattr))
+                        if ncattr != "_FillValue":
+                            out_dimension_variable.setncattr(ncattr, in_dimension_variable.getncattr(ncattr))
 
                     out_dimension_variable[:] = in_dimension_variable[:]
 
@@ -143,11 +152,19 @@ class EEMSWrite(SameArrayShapeMixin, Command):
                                         dataset.createDimension(dimension, dim_dataset.dimensions[dimension].size)
 
                                 grid_mapping_out = dataset.createVariable(
-                                    grid_mapping, grid_mapping_in.dtype, grid_mapping_in.dimensions
+                                    grid_mapping,
+                                    grid_mapping_in.dtype,
+                                    grid_mapping_in.dimensions,
+                                    fill_value=(
+                                        grid_mapping_in.getncattr("_FillValue")
+                                        if "_FillValue" in grid_mapping_in.ncattrs()
+                                        else None
+                                    ),
                                 )
 
                                 for ncattr in grid_mapping_in.ncattrs():
-                                    grid_mapping_out.setncattr(ncattr, grid_mapping_in.getncattr(ncattr))
+                                    if ncattr != "_FillValue":
+                                        grid_mapping_out.setncattr(ncattr, grid_mapping_in.getncattr(ncattr))
 
                         break
 
